@@ -165,7 +165,7 @@ func main() {
 		ncommit += b
 		nstate += nState
 	}
-	vh.Summary("alters", nAlter.Load(), "merges_gated", nGated.Load(), "profile", prof.name, "scenarios", nscen, "transactions", ntran, "commits", ncommit,
+	vh.Summary("alters", nAlter.Load(), "merges_gated", nGated.Load(), "windows_widened", nWidened.Load(), "profile", prof.name, "scenarios", nscen, "transactions", ntran, "commits", ncommit,
 		"state_updates", nstate, "events", tr.N)
 }
 
@@ -178,7 +178,11 @@ func scenario(seed int64, sn int) (int, int) {
 	metaS = sync.Map{}
 	tranIds = sync.Map{}
 	db = db19.CreateDb(stor.HeapStor(64 * 1024))
-	db19.StartConcur(db, prof.persist)
+	persist := prof.persist
+	if prof.admin && sn%2 == 1 {
+		persist *= 12 // rows stay unpersisted across index builds and later deletes
+	}
+	db19.StartConcur(db, persist)
 	for _, td := range prof.tables {
 		query.DoAdmin(db, td.admin, nil)
 	}
@@ -199,6 +203,9 @@ func scenario(seed int64, sn int) (int, int) {
 		for g := 0; g < prof.pairs; g++ {
 			ntran.Add(int64(groupInterleaved(r)))
 		}
+	}
+	if prof.pairs == 0 {
+		vh.SetGate(gate)
 	}
 	stopAdmin := make(chan struct{})
 	adminDone := make(chan struct{})
@@ -282,6 +289,8 @@ var (
 	alterBuilt   atomic.Pointer[chan struct{}]
 	nAlter       atomic.Int64
 	nGated       atomic.Int64
+	nGateSeq     atomic.Int64
+	nWidened     atomic.Int64
 )
 
 // gate: park the merger at the start of a merge while an index build is in flight,
@@ -297,6 +306,13 @@ func gate(point string, kv []any) {
 				case <-time.After(300 * time.Millisecond):
 				}
 			}
+		}
+	case "merge.computed", "persist.computed":
+		// widen the window between computing a merge / persist on a snapshot and applying
+		// it to the latest state, so that commits land in between
+		if n := nGateSeq.Add(1); n%2 == 0 {
+			time.Sleep(time.Duration(200+(n*7919)%1800) * time.Microsecond)
+			nWidened.Add(1)
 		}
 	case "alter.built":
 		if ch := alterBuilt.Load(); ch != nil {
